@@ -22,6 +22,7 @@ pub fn exec_case(line: &str) -> Option<Vec<u64>> {
         "PES" => { let b = unhex(toks[1]); guarded(move || obs::run_pes(&b)) }
         "PPC" => { let b = unhex(toks[1]); guarded(move || obs::run_ppc(&b)) }
         "CRC" => { let b = unhex(toks[1]); guarded(move || vec![mpeg2ts_reader::mpegts_crc::sum32(&b) as u64]) }
+        "DSC1" => { let b = unhex(toks[1]); guarded(move || tobs::run_dsc1(&b)) }
         "DSC" => { let b = unhex(toks[1]); guarded(move || tobs::run_dsc(&b)) }
         "PAT" => { let b = unhex(toks[1]); guarded(move || tobs::run_pat(&b)) }
         "PMT" => { let b = unhex(toks[1]); guarded(move || tobs::run_pmt(&b)) }
